@@ -1,6 +1,7 @@
 #![allow(dead_code)]
 mod checks;
 mod common;
+mod doc;
 mod form;
 mod qml;
 mod translate;
